@@ -219,7 +219,7 @@ def search(ctx, boost=1, focus=()):
     # constant frames seen through windows that reach over the frame border: the log-scaled crop is a step (frame level inside,
     # zero padding outside) and the correlation with a small flat pattern has a wide flat plateau at a high level -- the centre
     # of mass of a flat neighbourhood is taken there
-    for k in range(8 * boost):
+    for k in range(16 * boost):
         r_ = float(rng.choice([2.0, 2.5, 3.0]))
         pat = {"kind": ("circular", "user", "background_subtraction")[k % 3], "radius": r_, "search": float(rng.integers(7, 11))}
         if pat["kind"] == "background_subtraction":
@@ -232,10 +232,24 @@ def search(ctx, boost=1, focus=()):
         if k % 2:
             peaks = [[int(rng.integers(c, shape[0] - c + 1)), int(rng.integers(c, shape[1] - c + 1))] for _ in range(6)]
         p = {"seed": int(rng.integers(1 << 30)), "pattern": pat, "shape": shape, "frame_kind": ("const", "dip")[k % 2], "peaks": peaks,
-             "b": int(rng.integers(1, 8)), "upsample": [False, 5][(k // 2) % 2], "backend": ("pixel", "slicing")[(k // 4) % 2]}
+             "b": int(rng.integers(1, 8)) if k < 8 else int(rng.integers(1, 4)), "upsample": [False, 5, 20, 50][(k // 2) % 4],
+             "backend": ("pixel", "slicing")[(k // 4) % 2]}
         msgs_ = run_case("wellformed", p)
         ctx.oracle_case("wellformed", p, msgs_, key=classify("wellformed", p, msgs_) if msgs_ else None, nontrivial=True)
         ctx.count("const_over_border")
+    # a single hot pixel seen through several windows, fewer crop buffers than peaks, upsampling on: the correlation map of each
+    # window is the mask itself (flat top), every refined position is an upsampled one and stays within 0.75 + 0.5 / upsample
+    for k in range(8 * boost):
+        r_ = float(rng.choice([2.0, 3.0, 4.0]))
+        c = int(rng.integers(int(r_) + 3, 11))
+        pat = {"kind": ("circular", "radial_gradient")[k % 2], "radius": r_, "search": float(c)}
+        shape = [int(rng.integers(2 * c, 40)), int(rng.integers(2 * c, 40))]
+        peaks = np.stack([rng.integers(-c // 2, shape[0] + c // 2, 8), rng.integers(-c // 2, shape[1] + c // 2, 8)], axis=1)
+        p = {"seed": int(rng.integers(1 << 30)), "pattern": pat, "shape": shape, "frame_kind": "hot", "peaks": peaks.tolist(),
+             "b": int(rng.integers(1, 4)), "upsample": [20, 50, 7, True][k % 4], "backend": ("pixel", "slicing")[(k // 4) % 2]}
+        msgs_ = run_case("wellformed", p)
+        ctx.oracle_case("wellformed", p, msgs_, key=classify("wellformed", p, msgs_) if msgs_ else None, nontrivial=True)
+        ctx.count("hot_pixel_few_buffers")
     # "crop sizes >= 2": one very large search window per run (a single crop is larger than the library's default buffer limit)
     c_big = int(rng.integers(182, 200))
     p = {"seed": int(rng.integers(1 << 30)), "pattern": {"kind": "circular", "radius": float(rng.integers(8, 30)), "search": float(c_big)},
